@@ -12,6 +12,9 @@ import Asn1cModel.Impl.UnberTlv
     exactly the arguments of the C call; `render` is the `printf` formatting of these calls.
   * the loop of `process_deeper` consumes one unit of `fuel` per iteration
     (`Proofs/Unber.lean`: `fuel > length input` is always enough).
+  * `level` is the C recursion depth: activation `level` runs on the `level + 1`-th stack frame of
+    `process_deeper`; the entry test against `UNBER_MAX_NESTING_LEVEL` (`maxLevel`) bounds it
+    (`Props/C20.lean`: `unber_levels_bounded`, `unber_nesting_limit`).
 
   Text is `Bytes` (ASCII codes); string constants are spelled as code lists, the comment
   next to each gives the text.  Core Lean only.
@@ -31,6 +34,15 @@ inductive Out where
   /-- `print_TL(os, 1, offset, level, constr, tlen, tag, len, effective_size)` -/
   | cls (level : Nat) (constr : Bool) (off tlen tag : Nat) (len : Int) (esize : Nat)
 deriving DecidableEq, Repr
+
+/-- the nesting level an event was printed at: `print_TL`'s `level` argument, i.e. the level of the
+    `process_deeper` activation that printed it (the end-of-contents element is printed by the child
+    activation with `level - 1`); `">\n"` and `print_V` take no level -/
+def Out.level : Out → Nat
+  | .opn level _ _ _ _ _ => level
+  | .cls level _ _ _ _ _ _ => level
+  | .gt => 0
+  | .val _ => 0
 
 /-- decimal digits with fuel (structural recursion, so that closed terms evaluate in the kernel) -/
 def decDigitsF : Nat → Nat → Bytes
@@ -144,7 +156,12 @@ inductive Err where
   | tlMismatch     -- "Outer tag length doesn't match inner tag length"
   | lenExceeds     -- "Structure advertizes length (..) greater than of a parent container"
   | eofV           -- "Unexpected end of file (V)"
+  | tooDeep        -- "Too deep nesting (more than %d levels)"
 deriving DecidableEq, Repr
+
+/-- `UNBER_MAX_NESTING_LEVEL`: `process_deeper` refuses to run at a `level` above it (one C stack
+    frame per level; the F41 repair) -/
+def maxLevel : Nat := 2048
 
 inductive Pdc where
   | finished | eof
@@ -201,6 +218,10 @@ def afterTL (rec : Loop) (level : Nat) (eoc : Bool) (tagbuf : Bytes) (limit : In
   else if constr then
     -- assert(limit >= tlv_len) when both are set
     if len ≠ -1 ∧ limit1 ≠ -1 ∧ limit1 < len then .assertion (o1 ++ [Out.gt])
+    else
+    -- the entry test of the child activation: `if(level > UNBER_MAX_NESTING_LEVEL) return PD_FAILED`
+    -- (`rec` is entered at the loop head; the top-level activation has level 0 and passes the test)
+    if level + 1 > maxLevel then .failed .tooDeep (o1 ++ [Out.gt])
     else
     match rec (level + 1) (len == -1) [] (if len = -1 then limit1 else len) tblen .finished inp off with
     | .done cpdc dec inp2 off2 o2 =>
